@@ -373,6 +373,11 @@ def active_vertices_not_adjacent_and_not_segmenting(
             raise TypeError("'is_active' should be a BoolArray2D if graph is not " "specified")
         active_vertices_not_adjacent(solver, is_active)
         height, width = is_active.shape
+        if height == 1 or width == 1:
+            # every cell touches two opposite sides of the border, which the
+            # diagonal-chain encoding below cannot express
+            active_vertices_connected(solver, ~is_active)
+            return
         ranks = solver.int_array((height, width), 0, (height * width - 1) // 2)
         for y in range(height):
             for x in range(width):
